@@ -311,7 +311,9 @@ func (txn *Txn) Commit() {
 	}
 
 	newRoot := txn.rootTxn.commit()
+	verifPoint("commit.beforeStore")
 	txn.fox.tree.Store(newRoot)
+	verifPoint("commit.afterStore")
 
 	// Clear the txn
 	txn.rootTxn = nil
